@@ -53,6 +53,13 @@ def make_form(rng, i, klass):
         for k, v in opts.items():
             if rng.random() < 0.5:
                 f.settings[k] = v
+        if rng.random() < 0.35:
+            f.entities = {"list_name": "ent" + str(i % 7), "label": "concat('e', '1')"}
+            if rng.random() < 0.5:
+                f.entities["entity_id"] = "coalesce('', uuid())"
+                f.entities["update_if"] = "true()"
+            for r in [r for r in f.survey if r.kind == "q" and (r.type or "").split(" ")[0] in ("text", "integer")][:2]:
+                r.cells["save_to"] = "p" + str(abs(hash(r.name)) % 89)
         for r, anc in f.walk():
             if r.kind == "q" and rng.random() < 0.3 and (r.type or "").split(" ")[0] in gen.INPUT_TYPES:
                 r.cells["bind::esri:fieldType"] = "esriFieldTypeString"
@@ -72,7 +79,7 @@ def hostile_name_form(rng, i):
     """(form, channel). Acceptable: PyXFormError, or well-formed output."""
     bad = rng.choice(BAD_NAMES)
     ch = rng.choice(["choices-header", "instance-attr", "bind-attr", "body-attr", "settings-attribute", "namespaces-prefix",
-                     "ctl-char-label", "ctl-char-choice", "ctl-char-default", "ctl-char-title"])
+                     "ctl-char-label", "ctl-char-choice", "ctl-char-default", "ctl-char-title", "loop-choice-name", "loop-choice-name", "question-name", "group-name"])
     f = gen.simple_form([("text", "q1", {"label": "L1"}), ("select_one l1", "q2", {"label": "L2"})],
                         choices={"l1": [{"name": "a", "label": "A"}, {"name": "b", "label": "B"}]})
     if ch == "choices-header":
@@ -88,6 +95,14 @@ def hostile_name_form(rng, i):
         f.settings[f"attribute::{bad}"] = "v"
     elif ch == "namespaces-prefix":
         f.settings["namespaces"] = f'{bad}="http://example.org/x"'
+    elif ch == "question-name":
+        f.survey[0].name = bad
+    elif ch == "group-name":
+        f.survey.append(Row("group", "begin group", bad, {"label": "g"}, [Row("q", "text", "ing", {"label": "x"})]))
+    elif ch == "loop-choice-name":
+        # legacy 'begin loop over <list>': one group per choice, named after the choice
+        f.choices["l1"][1]["name"] = bad
+        f.survey.append(Row("group", "begin loop over l1", "lp", {"label": "loop"}, [Row("q", "text", "inloop", {"label": "%(label)s"})], meta={"end_type": "end loop"}))
     else:
         c = rng.choice(hostile.CTL)
         bad = repr(c)
